@@ -217,7 +217,7 @@ theorem split_attrs_ok {d N g vw w} {as : Attrs} (k : Nat) (hk : k < N)
     (w' : List Rat) (a0 : Nat → Nat → Bool)
     (hadj : ∀ i j, i < N → j < N → rel d g i j = a0 i j)
     (V : String → Option (Nat → Nat → Rat)) (hattr : ∀ a, AttrOK d g as a (V a))
-    (hlink : g ≠ [] ∨ ∀ a, V a = none) :
+    (hex : ∀ a W, V a = some W → ∃ vs, as.get a = some vs) :
     ∃ as', as.foldl (splitStep ⟨form d N g none vw w, as⟩ k)
         (NetA.fresh (form d (N + 1) (graphEdges d (N + 1) (cells (N + 1) (splitRel (rel d g) N k)))
           none none w'))
@@ -254,12 +254,8 @@ theorem split_attrs_ok {d N g vw w} {as : Attrs} (k : Nat) (hk : k < N)
       exact hget
     | some W =>
       rw [hV] at ha
-      have hgne : g ≠ [] := by
-        rcases hlink with h | h
-        · exact h
-        · rw [h a] at hV; cases hV
-      obtain ⟨h1, f, hf, hW⟩ := ha
-      obtain ⟨vs, hvs⟩ := h1 hgne
+      obtain ⟨_, f, hf, hW⟩ := ha
+      obtain ⟨vs, hvs⟩ := hex a W hV
       have hin : a ∈ as.map (·.1) := by
         by_contra hn
         rw [← get_none_iff, hvs] at hn
@@ -497,5 +493,11 @@ theorem cells_split_length (a : Nat → Nat → Bool) (N k : Nat) (hk : k < N) (
     length_filter_eq_range N k hk]
   simp only [List.length_nil]
   omega
+
+theorem splitV_zero (a : Nat → Nat → Bool) (N k : Nat) :
+    splitV a N k (fun _ _ => 0) = fun _ _ => 0 := by
+  funext i j
+  unfold splitV splitAttr
+  simp
 
 end Pyunicorn.Repr
